@@ -40,7 +40,7 @@ def new_engine(O, L, reentry="event"):
     return eng
 
 
-def lex_explore(O, tok, L, first=None, ascii_only=False, reentry="event", budget_s=None, src_name="src"):
+def lex_explore(O, tok, L, first=None, ascii_only=False, reentry="event", budget_s=None, src_name="src", constrain=None):
     """One call of lex from offset 0.  first: predicate on the first byte term (None: any)."""
     m = O.mir
     fn = lex_fn(m, tok)
@@ -59,6 +59,9 @@ def lex_explore(O, tok, L, first=None, ascii_only=False, reentry="event", budget
         if ascii_only:
             for i in range(L):
                 st.pc.append(z3.ULT(lexmodel.byte_at(eng_, src, i), 0x80))
+        if constrain is not None:
+            for c in constrain(eng_, src):
+                st.pc.append(c)
         st.extra["lx"] = lx
     paths = O.explore(eng, fn, setup=setup)
     return eng, src, paths
@@ -140,3 +143,85 @@ def lex_concrete(O, tok, text, max_tokens=400):
             return out + [("STUCK", pos, pos)]
         pos = e
     return out + [("TOO-MANY", pos, pos)]
+
+
+# ------------------------------------------------------------------ integer literals are single tokens of any length
+
+DIG = {"dec": list(range(0x30, 0x3A)), "oct": list(range(0x30, 0x38)), "bin": [0x30, 0x31],
+       "hex": list(range(0x30, 0x3A)) + list(range(0x41, 0x47)) + list(range(0x61, 0x67))}
+# kind, bytes of the prefix (each a set), digit set, minimal number of digits after the prefix, longest source examined
+LITERALS = {
+    "DecInt": ([list(range(0x31, 0x3A))], DIG["dec"], 0, 24),      # 2^63 has 19 digits
+    "HexInt": ([[0x30], [0x78, 0x58]], DIG["hex"], 1, 22),         # 16 digits fill 64 bits
+    "OctInt": ([[0x30]], DIG["oct"], 0, 27),                       # 22 digits
+    "BinInt": ([[0x30], [0x62, 0x42]], DIG["bin"], 1, 70),         # 64 digits
+}
+
+
+def literal_is_one_token(O, kind, R):
+    """A source that consists of one integer literal of the given kind - prefix, then digits of the radix only, up to the
+    stated length (well beyond what fits in 64 bits) - is lexed as exactly one token of that kind covering all of it: the
+    lexer never splits an over-long literal into pieces that could each be accepted."""
+    m = O.mir
+    prefix, digits, mind, L = LITERALS[kind]
+
+    def constrain(eng_, src):
+        n = lexmodel.src_len(eng_, src)
+        cs = [z3.UGE(n, bv64(len(prefix) + mind)), z3.ULE(n, bv64(L))]
+        for i in range(L):
+            b = lexmodel.byte_at(eng_, src, i)
+            allowed = prefix[i] if i < len(prefix) else digits
+            cs.append(z3.Or(z3.UGE(bv64(i), n), in_set(b, allowed)))
+        return cs
+    eng, src, paths = lex_explore(O, "TokenKind", L, ascii_only=True, reentry="event", constrain=constrain, src_name="lit" + kind)
+    n = lexmodel.src_len(eng, src)
+    seen = 0
+    for p in paths:
+        eng.focus(p)
+        res, mod = O.solve(list(p.pc))
+        if res != "sat":
+            continue
+
+        def facts(mod2, kind=kind):
+            return dict(R.facts, what="literal token", kind=kind, text=model_bytes(eng, src, mod2, L).decode("latin-1"))
+
+        def scen(mod2, kind=kind):
+            from ..replay import Scenario
+            # literals of this kind that do not fit in 64 bits, at and beyond the first length that overflows (the model's
+            # own text may be a short literal: what the path shows is how the lexer cuts, the scenarios show what it costs)
+            head, first_over = {"DecInt": ("", 20), "HexInt": ("0x", 17), "OctInt": ("0", 22), "BinInt": ("0b", 64)}[kind]
+            own = []
+            for d in (first_over, first_over + 1, first_over + 2, first_over + 5, L - len(head)):
+                for lead in ("1", "7" if kind != "BinInt" else "1"):
+                    own += over_long_scenarios(head + lead + "0" * (d - 1))
+                    own += over_long_scenarios(head + lead + ("10" * d)[:d - 1])
+            return own + list(R.battery)
+
+        def _unused(mod2):
+            from ..replay import Scenario
+            txt = model_bytes(eng, src, mod2, L).decode("latin-1")
+            own = [Scenario("A B\n%s 1\n" % txt, [], mode="parse", expect={"parse": "err"}, note="over-long literal %s as a row entry" % txt[:12]),
+                   Scenario("A B\n%s\n" % txt, [], mode="parse", expect={"parse": "err"}, note="over-long literal %s alone in a row" % txt[:12]),
+                   Scenario("A B C\n%s 1\n" % txt, [], mode="parse", expect={"parse": "err"}, note="over-long literal %s, one entry fewer than columns" % txt[:12]),
+                   Scenario("A B\n1 (%s)\n" % txt, [], mode="parse", expect={"parse": "err"}, note="over-long literal %s in an expression" % txt[:12])]
+            return own + list(R.battery)
+        if p.outcome != "return":
+            O.fail_path(p, "lexing a %s literal: %s %s" % (kind, p.outcome, p.detail), facts, scen, R.judge)
+            continue
+        st_, k, s_, e_ = result_of(m, "TokenKind", p)
+        seen += 1
+        if st_ != "ok" or k != kind or s_ != 0 or e_ is None:
+            O.fail_path(p, "a source that is one %s literal is lexed as %s %s [%s, %s)" % (kind, st_, k, s_, e_), facts, scen, R.judge)
+            continue
+        O.prove(p, n == bv64(e_), "a %s literal of any length up to %d bytes is one token" % (kind, L), facts, scen, R.judge)
+    if seen == 0:
+        O.inconclusive("vacuous: no %s literal was lexed" % kind)
+    O.note("%s: %d paths (one per length), sources up to %d bytes" % (kind, len(paths), L))
+
+
+def over_long_scenarios(txt):
+    from ..replay import Scenario
+    return [Scenario("A B\n%s 1\n" % txt, [], mode="parse", expect={"parse": "err"}, note="over-long literal %s.. (%d chars) as a row entry" % (txt[:6], len(txt))),
+            Scenario("A B\n%s\n" % txt, [], mode="parse", expect={"parse": "err"}, note="over-long literal %s.. (%d chars) alone in a row of two columns" % (txt[:6], len(txt))),
+            Scenario("A B C\n%s 1\n" % txt, [], mode="parse", expect={"parse": "err"}, note="over-long literal %s.. (%d chars), one entry fewer than columns" % (txt[:6], len(txt))),
+            Scenario("A B\n1 (%s)\n" % txt, [], mode="parse", expect={"parse": "err"}, note="over-long literal %s.. (%d chars) in an expression" % (txt[:6], len(txt)))]
